@@ -12,7 +12,7 @@ for id in $ids; do
   ( cd $W && git init -q . && git apply $d/patch.diff ) || { echo "$id APPLY-FAILED"; rm -rf $W; continue; }
   for p in $props; do
     s=$(date +%s)
-    VERIF_REPO=$W VERIF_CACHE=$W/cache VERIF_EVIDENCE=$S/evidence ./check $p --tier ${TIER:-quick} > $S/logs/seed_${id}_$p.log 2>&1; rc=$?
+    VERIF_REPO=$W VERIF_CACHE=$W/cache VERIF_EVIDENCE=$S/evidence VERIF_REPLAYS=$S/replays ./check $p --tier ${TIER:-quick} > $S/logs/seed_${id}_$p.log 2>&1; rc=$?
     e=$(date +%s)
     echo "$id check=$p rc=$rc $((e-s))s :: $(grep -c '^VIOLATION' $S/logs/seed_${id}_$p.log) violation lines :: $(grep '^  failed obligation' $S/logs/seed_${id}_$p.log | head -3 | cut -c22-110 | tr '\n' ';') $(grep '^UNDECIDED' $S/logs/seed_${id}_$p.log | head -2 | cut -c1-160 | tr '\n' ';')"
   done
